@@ -246,6 +246,10 @@ class C02(Property):
     # stages built LATE: after some demand has already been served, another
     # stage is put on top of an endpoint object that has a history (peeked,
     # partly consumed); building it must read nothing either
+    if W.chance("deep", 1, 150):
+      # a few demands of hundreds of outputs: whatever a stage accumulates
+      # or switches over to after a warm-up
+      wl["deep"] = W.pick("deepk", [30, 70])
     late = []
     if W.chance("late", 1, 3):
       at = 0
@@ -520,6 +524,8 @@ class C02(Property):
       op = ["next", "take", "peek", "iter"][
         S.choose("op", 4 if "late" in wl else 3)]
       k = 1 if op == "next" else 1 + S.choose("k", 10)
+      if op != "next" and wl.get("deep"):
+        k *= wl["deep"]
       info["demand"].append((e, op, k))
       # the reference pipeline moves first: it defines the read budget
       M.refuel()
